@@ -7,8 +7,10 @@
 mod exec;
 mod exec_ext;
 mod gen_edge;
+mod gen_search;
 mod hook;
 mod oracle;
+mod oracle_search;
 mod rng;
 mod sched;
 
@@ -119,6 +121,100 @@ fn edge_props(prop: &str, tier: &str, seed: u64, threads: usize, out: &str) {
     write_outputs(out, &ctxs, extra);
 }
 
+fn search_props(prop: &str, tier: &str, seed: u64, threads: usize, out: &str) {
+    let quick = tier == "quick";
+    let flavours: Vec<&str> = if prop == "C08" { vec!["di", "sdi"] } else { vec!["di", "sdi", "un", "sun"] };
+    let oracle = prop.to_lowercase();
+    let mut ctxs = new_ctxs(threads, &[oracle.as_str()]);
+    let mut extra = BTreeMap::new();
+    // enumerated connect sequences: (nodes, max edges)
+    let configs: Vec<(usize, usize)> = if quick { vec![(2, 3), (3, 3)] } else { vec![(2, 4), (3, 4), (4, 3)] };
+    for fl in &flavours {
+        for &(n, mmax) in &configs {
+            exec::new_section();
+            let mut jobs: Vec<(usize, usize)> = vec![];
+            for m in 0..=mmax {
+                for idx in 0..gen_search::count_seqs(n, m) {
+                    jobs.push((m, idx));
+                }
+            }
+            let njobs = jobs.len();
+            let jobs = &jobs;
+            let p = prop.to_string();
+            spread(&mut ctxs, njobs, |i| {
+                let (m, idx) = jobs[i];
+                let edges = gen_search::seq_graph(n, m, idx);
+                // node values: a different assignment per graph, all assignments over {0,1,2} are hit across the enumeration
+                let vals: Vec<i64> = (0..n).map(|k| ((idx / 3usize.pow(k as u32) + m + (seed as usize)) % 3) as i64).collect();
+                let g = gen_search::GraphSpec { n, vals, edges };
+                let mut l = vec![format!("case {fl} e{n}n{m}e-{idx}")];
+                l.extend(gen_search::graph_lines(&g));
+                l.extend(gen_search::requests(&p, fl, &g, !quick, None));
+                l
+            });
+            extra.insert(format!("enumerated.{fl}.{n}n<={mmax}e"), format!("graphs={njobs}"));
+        }
+        if prop == "C06" {
+            // every assignment of node values over {0,1,2} on the graphs with <= 2 (quick) / 3 (thorough) edges on 3 nodes
+            exec::new_section();
+            let mmax = if quick { 2 } else { 3 };
+            let mut jobs: Vec<(usize, usize, usize)> = vec![];
+            for m in 0..=mmax {
+                for idx in 0..gen_search::count_seqs(3, m) {
+                    for va in 0..27 {
+                        jobs.push((m, idx, va));
+                    }
+                }
+            }
+            let njobs = jobs.len();
+            let jobs = &jobs;
+            spread(&mut ctxs, njobs, |i| {
+                let (m, idx, va) = jobs[i];
+                let g = gen_search::GraphSpec { n: 3, vals: vec![(va % 3) as i64, (va / 3 % 3) as i64, (va / 9) as i64], edges: gen_search::seq_graph(3, m, idx) };
+                let mut l = vec![format!("case {fl} v3n{m}e-{idx}-{va}")];
+                l.extend(gen_search::graph_lines(&g));
+                l.extend(gen_search::requests("C06", fl, &g, false, None));
+                l
+            });
+            extra.insert(format!("values.{fl}.3n<={mmax}e"), format!("graphs x assignments={njobs}"));
+        }
+    }
+    // comparison operators for all pairs of (key, value) combinations over small ranges
+    if prop == "C06" {
+        exec::new_section();
+        let fls = flavours.clone();
+        spread(&mut ctxs, fls.len(), |i| {
+            let mut l = vec![format!("case {} cmp", fls[i])];
+            for k1 in 0..3 {
+                for v1 in -1..3 {
+                    for k2 in 0..3 {
+                        for v2 in -1..3 {
+                            l.push(format!("cmp {k1} {v1} {k2} {v2}"));
+                        }
+                    }
+                }
+            }
+            l
+        });
+    }
+    // seeded random graphs
+    exec::new_section();
+    let ngraphs = if quick { 300 } else { 4000 };
+    let fls = flavours.clone();
+    let p = prop.to_string();
+    spread(&mut ctxs, ngraphs, |i| {
+        let mut rng = Rng::new(seed.wrapping_mul(7_000_003).wrapping_add(i as u64));
+        let fl = fls[i % fls.len()];
+        let g = gen_search::random_graph(&mut rng, if i % 3 == 0 { 40 } else { 9 });
+        let mut l = vec![format!("case {fl} r{i}")];
+        l.extend(gen_search::graph_lines(&g));
+        l.extend(gen_search::requests(&p, fl, &g, !quick, Some(&mut rng)));
+        l
+    });
+    extra.insert("random.graphs".into(), format!("{ngraphs}"));
+    write_outputs(out, &ctxs, extra);
+}
+
 fn main() {
     std::panic::set_hook(Box::new(|_| {}));
     hook::install_sequential();
@@ -133,6 +229,7 @@ fn main() {
             let prop = arg(&args, "--prop", "");
             match prop.as_str() {
                 "C01" | "C02" | "C03" => edge_props(&prop, &tier, seed, threads, &out),
+                "C04" | "C05" | "C06" | "C07" | "C08" | "C09" | "C10" => search_props(&prop, &tier, seed, threads, &out),
                 _ => {
                     eprintln!("unknown property {prop}");
                     std::process::exit(2)
@@ -142,6 +239,7 @@ fn main() {
         "replay" => {
             // executes program files with every oracle on; writes outputs like `run`
             let oracles = arg(&args, "--oracles", "mirror,contract,nopanic");
+            let oracles = if oracles.is_empty() { "none".to_string() } else { oracles };
             let files: Vec<String> = args.iter().skip(2).filter(|a| a.ends_with(".prog")).cloned().collect();
             let mut ctxs = new_ctxs(1, &oracles.split(',').collect::<Vec<_>>());
             for f in files {
